@@ -305,12 +305,32 @@ fn host_forms() -> Vec<(&'static str, bool /* dubious by the statement */, bool 
     ]
 }
 
+/// The option as the real configuration reader delivers it: from a file
+/// that does not mention it (source 1, must be off), from a file that sets
+/// it (2), from the command line (3).
+fn allow_via(dir: &Path, allow: bool, source: u8) -> Result<bool, String> {
+    use clap::Command;
+    fs::create_dir_all(dir).map_err(|e| e.to_string())?;
+    let file = dir.join("allow.conf");
+    let mut base = crate::data::mem_config();
+    base.allow_dubious_hosts = allow && source == 2;
+    let text: String = base.to_string().lines()
+        .filter(|l| !(source != 2 && l.trim_start().starts_with("allow-dubious-hosts")))
+        .map(|l| format!("{l}\n")).collect();
+    fs::write(&file, text).map_err(|e| e.to_string())?;
+    let mut args = vec!["routinator".to_string(), "-c".into(), file.display().to_string()];
+    if source == 3 && allow { args.push("--allow-dubious-hosts".into()); }
+    let matches = Config::config_args(Command::new("routinator")).try_get_matches_from(&args).map_err(|e| format!("harness: {e}"))?;
+    let config = Config::from_arg_matches(&matches, dir).map_err(|_| "harness: configuration rejected".to_string())?;
+    Ok(config.allow_dubious_hosts)
+}
+
 fn run_c31_case(
-    gen: &Gen, dir: PathBuf, host: &str, role: Role, allow: bool,
+    gen: &Gen, dir: PathBuf, host: &str, role: Role, allow: bool, source: u8,
 ) -> Result<(bool, String), String> {
     let case = Case::new(dir);
     let mut config = base_config(&case);
-    config.allow_dubious_hosts = allow;
+    config.allow_dubious_hosts = if source == 0 { allow } else { allow_via(&case.dir.join("conf"), allow, source)? };
     let http_log: Arc<Mutex<Vec<String>>> = Arc::new(Mutex::new(Vec::new()));
     let authority_key = host.to_ascii_lowercase();
     // route every host form used here
@@ -362,7 +382,10 @@ pub fn run_c31(ctx: &Ctx) -> Report {
         spellings of case, IPv4 literals, bracketed IPv6 literals, names \
         and literals with explicit ports} x URI role {caRepository of a CA \
         certificate, rpkiNotify of a CA certificate, rsync URI of a TAL} x \
-        allow-dubious-hosts on/off, each on the real collector run with a \
+        allow-dubious-hosts on/off (for localhost also with the option \
+        coming through the real configuration reader: a file that does not \
+        mention it, a file that sets it, the command line), each on the \
+        real collector run with a \
         generated CA certificate; observed: fake-rsync invocation log and \
         HTTPS request log; oracle: with the option off no request for a \
         dubious authority is started (and one is for a plain name), with \
@@ -373,10 +396,16 @@ pub fn run_c31(ctx: &Ctx) -> Report {
     let mut n = 0;
     for (host, dubious, classified) in host_forms() {
         for role in [Role::CaRepository, Role::RpkiNotify, Role::TalRsync] {
-            for allow in [false, true] {
+            // where the option comes from: set directly; for `localhost`
+            // also through the real configuration reader
+            let mut variants: Vec<(bool, u8)> = vec![(false, 0), (true, 0)];
+            if host == "localhost" { variants.extend([(false, 1), (false, 2), (true, 2), (true, 3)]); }
+            for (allow, source) in variants {
                 n += 1;
-                let r = util::catch(|| run_c31_case(&gen, ctx.scratch.join(format!("h{n}")), host, role, allow))
+                let r = util::catch(|| run_c31_case(&gen, ctx.scratch.join(format!("h{n}")), host, role, allow, source))
                     .unwrap_or_else(Err);
+                if let Err(e) = &r { if e.starts_with("harness") { eprintln!("machinery error: {e}"); std::process::exit(2) } }
+                let via = ["", " (configuration file without the option)", " (configuration file)", " (command line)"][source as usize];
                 match r {
                     Err(e) => { rep.outcome(format!("not-constructible:{}", if e.contains("parser") { "uri-rejected" } else { "other" })); info.push(format!("{host} as {role:?}: {e}")); }
                     Ok((requested, detail)) => {
@@ -392,15 +421,15 @@ pub fn run_c31(ctx: &Ctx) -> Report {
                             let form = if host.eq_ignore_ascii_case("localhost") { "localhost-case" }
                                 else if host.contains(':') { "port-or-v6" } else { "ip-literal" };
                             rep.violation(format!("dubious:contacted:{form}:{role:?}"), format!(
-                                "allow-dubious-hosts off: a request was started for {host} ({role:?}); {detail}"
-                            ), json!({"host": host, "role": format!("{role:?}"), "allow": allow}));
+                                "allow-dubious-hosts off{via}: a request was started for {host} ({role:?}); {detail}"
+                            ), json!({"host": host, "role": format!("{role:?}"), "allow": allow, "source": source}));
                         }
                         else if !must_not && !requested {
                             rep.outcome("VIOLATION:request-missing");
                             rep.violation(format!("dubious:request-missing:{role:?}:allow={allow}"), format!(
                                 "no request for {host} ({role:?}) although {}; {detail}",
-                                if allow { "dubious hosts are allowed" } else { "the host is not dubious" }
-                            ), json!({"host": host, "role": format!("{role:?}"), "allow": allow}));
+                                if allow { format!("dubious hosts are allowed{via}") } else { "the host is not dubious".to_string() }
+                            ), json!({"host": host, "role": format!("{role:?}"), "allow": allow, "source": source}));
                         }
                         else {
                             rep.outcome(format!("{}:{}", if requested { "requested" } else { "suppressed" }, if dubious { "dubious" } else { "plain" }));
@@ -423,7 +452,7 @@ pub fn replay_c31(ctx: &Ctx, v: &Value) -> Report {
     let host = v["host"].as_str().unwrap_or("localhost");
     let role = match v["role"].as_str() { Some("RpkiNotify") => Role::RpkiNotify, Some("TalRsync") => Role::TalRsync, _ => Role::CaRepository };
     let allow = v["allow"].as_bool().unwrap_or(false);
-    let r = run_c31_case(&gen, ctx.scratch.join("replay"), host, role, allow);
+    let r = run_c31_case(&gen, ctx.scratch.join("replay"), host, role, allow, v["source"].as_u64().unwrap_or(0) as u8);
     println!("{host} {role:?} allow={allow}: {r:?}");
     if let Ok((true, detail)) = r { if !allow { rep.violation("dubious:contacted", detail, v.clone()) } }
     rep.evaluations = 1; rep.nontrivial = 2;
